@@ -175,7 +175,7 @@ def aliased_copy(desc):
     canon = {}
 
     def key(o):
-        return json.dumps(o, sort_keys=True, default=repr)
+        return json.dumps(o, default=repr)        # with the key ORDER: two mappings that differ in order are two different texts
 
     if zlib.crc32(key(desc).encode()) % 2:
         return deep_copy(desc)
